@@ -93,7 +93,7 @@ def kripke_invariant(self):
                 sorted(map(repr, lab)), sorted(map(repr, nxt)))
         if not bad:
             for s, l in lab.items():
-                if not isinstance(l, set):
+                if not isinstance(l, (set, frozenset)):
                     bad = 'label of %r is %s, not a set' % (
                         s, type(l).__name__)
                     break
@@ -188,7 +188,8 @@ def _wrap_init(orig):
                     elif set(self._labels.keys()) != set(states):
                         bad = 'label map keys differ from the states'
                     elif any(self._labels[s] != labels[s] or
-                             not isinstance(self._labels[s], set)
+                             not isinstance(self._labels[s],
+                                            (set, frozenset))
                              for s in states):
                         bad = 'label sets differ from L'
                     elif set(self.S0) != s0:
@@ -250,10 +251,8 @@ def _wrap_clone(orig):
                 bad = 'clone differs from the original'
             elif any(res._labels[s] is self._labels[s] for s in self._labels):
                 bad = 'clone shares a label set with the original'
-            elif any(res._next[s] is self._next[s] for s in self._next):
-                bad = 'clone shares a successor set with the original'
-            elif res._labels is self._labels or res._next is self._next:
-                bad = 'clone shares a dict with the original'
+            elif res._labels is self._labels:
+                bad = 'clone shares the label map with the original'
             elif _kr(self) != before:
                 bad = 'receiver changed'
         except Exception as e:
